@@ -379,6 +379,10 @@ func (p ParametersLiteral) GetLogMessageRatio() (LogMessageRatio int, err error)
 		if LogMessageRatio < 0 {
 			return LogMessageRatio, fmt.Errorf("field LogMessageRatio cannot be negative")
 		}
+
+		if LogMessageRatio > 63 {
+			return LogMessageRatio, fmt.Errorf("field LogMessageRatio cannot be larger than 63")
+		}
 	}
 
 	return
